@@ -15,6 +15,7 @@ import (
 	"os"
 	"runtime/debug"
 	"sort"
+	"strconv"
 	"strings"
 )
 
@@ -149,6 +150,17 @@ func (r *Run) Thorough() bool { return r.Tier == "thorough" }
 func (r *Run) Scale(quick, thorough int) int {
 	if r.Thorough() {
 		return thorough
+	}
+	// VERIF_QMUL (set per engine by the check's spec, `quick_mul`): engines whose quick run takes a few seconds
+	// explore a multiple of their basic quick budget; the random stream is the same, so a longer run is an
+	// extension of the shorter one
+	if m, err := strconv.Atoi(os.Getenv("VERIF_QMUL")); err == nil && m > 1 {
+		if quick*m < thorough {
+			return quick * m
+		}
+		if quick < thorough {
+			return thorough
+		}
 	}
 	return quick
 }
